@@ -309,10 +309,10 @@ Theorem split_one_cases prec us st r st' : split_one prec us st = Some (r, st') 
   exists i cut u rest', st = CRandint i :: CUniform cut :: st' /\ nth_error us i = Some u /\
     let rest := cdel u us in let right := mkCU cut (ce u) (cc u) in let left := mkCU (cs u) cut (cc u) in
     (addable prec right = true /\ addable prec left = true /\ r = cins left (cins right rest)) \/
-    (addable prec right = true /\ addable prec left = false /\ r = cins u (cins right rest)) \/
-    (addable prec right = false /\ r = cins u rest) /\ rest' = rest.
+    (addable prec right = true /\ addable prec left = false /\ r = cins u (cdel right (cins right rest))) \/
+    (addable prec right = false /\ r = cins u (cdel right rest)) /\ rest' = rest.
 Proof.
-  unfold split_one. intros H.
+  unfold split_one, split_one_gen. intros H.
   destruct st as [|d1 st1]; [discriminate H|]. destruct d1 as [x|x|x|j|i]; try discriminate H.
   destruct st1 as [|d2 st2]; [discriminate H|]. destruct d2 as [cut|x|x|j|j]; try discriminate H.
   destruct (nth_error us i) as [u|] eqn:Hn; [|discriminate H].
@@ -336,7 +336,7 @@ Theorem split_one_duration prec us st r st' i cut u :
   ~ InE (mkCU cut (ce u) (cc u)) (cdel u us) -> ~ InE (mkCU (cs u) cut (cc u)) (cins (mkCU cut (ce u) (cc u)) (cdel u us)) ->
   total_duration r == total_duration us /\ length r = S (length us).
 Proof.
-  intros Hst Hn H Har Hal Hfr Hfl. subst st. unfold split_one in H. rewrite Hn in H. cbv zeta in H.
+  intros Hst Hn H Har Hal Hfr Hfl. subst st. unfold split_one, split_one_gen in H. rewrite Hn in H. cbv zeta in H.
   rewrite Har, Hal in H. injection H as H1. subst r.
   assert (Hin : In u us) by (eapply nth_error_In; exact Hn).
   split.
@@ -344,6 +344,58 @@ Proof.
     unfold duration. cbn [cs ce]. lra.
   - rewrite (length_cins_fresh _ _ Hfl), (length_cins_fresh _ _ Hfr), (cdel_length _ _ Hin).
     destruct us as [|w us']; [destruct Hin | reflexivity].
+Qed.
+
+(* a unit that cannot be split (a piece would be too short for the container) is left as it was: withdrawing a fresh piece undoes its insertion *)
+Lemma cunit_eqb_false_not_eqv u v : cunit_eqb u v = false -> ~ unit_eqv u v.
+Proof. intros H E. apply cunit_eqb_spec in E. congruence. Qed.
+Lemma cdel_fresh v l : ~ InE v l -> cdel v l = l.
+Proof.
+  induction l as [|w r IH]; intros Hf; [reflexivity|]. apply InE_cons_not in Hf. destruct Hf as [Hw Hr].
+  cbn [cdel]. destruct (cunit_eqb v w) eqn:E; [apply cunit_eqb_spec in E; contradiction|]. rewrite (IH Hr). reflexivity.
+Qed.
+Lemma cdel_cins_fresh v l : ~ InE v l -> cdel v (cins v l) = l.
+Proof.
+  induction l as [|w r IH]; intros Hf.
+  - cbn [cins cdel]. rewrite cunit_eqb_refl. reflexivity.
+  - apply InE_cons_not in Hf. destruct Hf as [Hw Hr]. cbn [cins].
+    destruct (cunit_eqb v w) eqn:E; [apply cunit_eqb_spec in E; contradiction|].
+    destruct (cunit_ltb v w).
+    + cbn [cdel]. rewrite cunit_eqb_refl. reflexivity.
+    + cbn [cdel]. rewrite E, (IH Hr). reflexivity.
+Qed.
+Theorem split_one_unsplittable prec us st r st' i cut u :
+  st = CRandint i :: CUniform cut :: st' -> nth_error us i = Some u -> split_one prec us st = Some (r, st') ->
+  addable prec (mkCU cut (ce u) (cc u)) = false \/ addable prec (mkCU (cs u) cut (cc u)) = false ->
+  ~ InE (mkCU cut (ce u) (cc u)) (cdel u us) ->
+  r = cins u (cdel u us).
+Proof.
+  intros Hst Hn H Hbad Hfr. subst st. unfold split_one, split_one_gen in H. rewrite Hn in H. cbv zeta in H.
+  destruct (addable prec (mkCU cut (ce u) (cc u))) eqn:Har.
+  - destruct Hbad as [Hb|Hb]; [discriminate Hb|]. rewrite Hb in H. injection H as H1. subst r.
+    rewrite (cdel_cins_fresh _ _ Hfr). reflexivity.
+  - injection H as H1. subst r. rewrite (cdel_fresh _ _ Hfr). reflexivity.
+Qed.
+(* ... and re-inserting the popped unit among pairwise distinct units restores duration and count *)
+Theorem split_one_unsplittable_keeps prec us st r st' i cut u :
+  st = CRandint i :: CUniform cut :: st' -> nth_error us i = Some u -> split_one prec us st = Some (r, st') ->
+  addable prec (mkCU cut (ce u) (cc u)) = false \/ addable prec (mkCU (cs u) cut (cc u)) = false ->
+  ~ InE (mkCU cut (ce u) (cc u)) (cdel u us) -> ~ InE u (cdel u us) ->
+  total_duration r == total_duration us /\ length r = length us.
+Proof.
+  intros Hst Hn H Hbad Hfr Hfu. rewrite (split_one_unsplittable prec us st r st' i cut u Hst Hn H Hbad Hfr).
+  assert (Hin : In u us) by (eapply nth_error_In; exact Hn).
+  split.
+  - rewrite (total_duration_cins_fresh _ _ Hfu), (total_duration_cdel _ _ Hin). lra.
+  - rewrite (length_cins_fresh _ _ Hfu), (cdel_length _ _ Hin). destruct us as [|w us']; [destruct Hin | reflexivity].
+Qed.
+(* the code as it was: the first piece stays AND the original comes back - the annotated duration is counted twice (the defect repaired by the fix commit) *)
+Theorem split_original_counts_duration_twice :
+  exists prec us st r st', split_one_gen false prec us st = Some (r, st') /\ ~ total_duration r == total_duration us /\
+                          split_one_gen true prec us st = Some (us, st').
+Proof.
+  exists (1 # 1000000), [mkCU 0 (1 # 20000) 0], [CRandint 0; CUniform (9 # 10000000)].
+  eexists. eexists. split; [vm_compute; reflexivity|]. split; [vm_compute; discriminate | vm_compute; reflexivity].
 Qed.
 
 Theorem split_rounds_zero prec corpus st : split_rounds prec 0 corpus st = Some (corpus, st).
